@@ -18,7 +18,7 @@ fn rt<T: Serialize + DeserializeOwned>(em: &mut Emitter, kind: &str, sparse: boo
     match call(|| serde_json::to_string(x)) {
         Out::Ok(a) => match call(|| serde_json::from_str::<T>(&a)) {
             Out::Ok(y) => {
-                if serde_json::to_string(&y).ok().as_ref() != Some(&a) {
+                if call(|| serde_json::to_string(&y)).ok().as_ref() != Some(&a) {
                     em.violation(&format!("c19:reencode-differs:{}:json", kind), format!("{}: JSON decode(encode(x)) re-encodes differently", kind), json!({"kind": kind, "json": a}));
                 }
             }
@@ -33,7 +33,7 @@ fn rt<T: Serialize + DeserializeOwned>(em: &mut Emitter, kind: &str, sparse: boo
     match call(|| serde_cbor::to_vec(x)) {
         Out::Ok(a) => match call(|| serde_cbor::from_slice::<T>(&a)) {
             Out::Ok(y) => {
-                if serde_cbor::to_vec(&y).ok().as_ref() != Some(&a) {
+                if call(|| serde_cbor::to_vec(&y)).ok().as_ref() != Some(&a) {
                     em.violation(&format!("c19:reencode-differs:{}:cbor", kind), format!("{}: CBOR decode(encode(x)) re-encodes differently", kind), json!({"kind": kind, "cbor": hexs(&a)}));
                 }
             }
@@ -47,7 +47,7 @@ fn rt<T: Serialize + DeserializeOwned>(em: &mut Emitter, kind: &str, sparse: boo
     match call(|| serde_bare::to_vec(x)) {
         Out::Ok(a) => match call(|| serde_bare::from_slice::<T>(&a)) {
             Out::Ok(y) => {
-                if serde_bare::to_vec(&y).ok().as_ref() != Some(&a) {
+                if call(|| serde_bare::to_vec(&y)).ok().as_ref() != Some(&a) {
                     em.violation(&format!("c19:reencode-differs:{}:bare", kind), format!("{}: BARE decode(encode(x)) re-encodes differently", kind), json!({"kind": kind, "bare": hexs(&a)}));
                 }
                 em.count(&format!("bare:{}:{}:ok", kind, if sparse { "sparse" } else { "full" }));
@@ -116,7 +116,8 @@ fn suite_objects<S: ShortGroupSignatureScheme>(em: &mut Emitter, rng: &mut Rng, 
         rt(em, &format!("IssuerPublic<{}>", suite), sparse, &public);
         let claims: Vec<ClaimData> = vec![
             RevocationClaim::from("cred-1").into(),
-            HashedClaim::from("Alice").into(),
+            // print-friendly text that is also valid hex in the sparse variant
+            HashedClaim::from(if sparse { "cafe" } else { "Alice" }).into(),
             NumberClaim::from(30).into(),
             if sparse { ScalarClaim::from(rng.scalar()).into() } else { ScalarClaim::encode_str("1").unwrap().into() },
             EnumerationClaim { dst: "level".into(), value: 1, total_values: 3 }.into(),
@@ -125,6 +126,34 @@ fn suite_objects<S: ShortGroupSignatureScheme>(em: &mut Emitter, rng: &mut Rng, 
             rt(em, "ClaimData", false, c);
         }
         rt(em, "ClaimData", false, &ClaimData::from(HashedClaim::from(vec![0u8, 255, 254])));
+        // value catalogue: texts that look like another representation (hex, numbers, tags, white space)
+        for t in ["", "cafe", "CAFE", "5551234567", "00", "DEADBEEF", "68656c6c6f", "0x10", " a", "a ", "é", "123", "-1", "hex:00", "ut8:a", "null", "\"", "\\", "a\nb", "\u{0}"] {
+            for pf in [true, false] {
+                let mut h = HashedClaim::from(t);
+                h.print_friendly = pf;
+                let c = ClaimData::from(h);
+                rt(em, "ClaimData", false, &c);
+                for (fmt, back) in [
+                    ("json", serde_json::to_string(&c).ok().and_then(|s| serde_json::from_str::<ClaimData>(&s).ok())),
+                    ("cbor", serde_cbor::to_vec(&c).ok().and_then(|s| serde_cbor::from_slice::<ClaimData>(&s).ok())),
+                    ("bare", serde_bare::to_vec(&c).ok().and_then(|s| serde_bare::from_slice::<ClaimData>(&s).ok())),
+                ] {
+                    em.oracle_case(&format!("claim value {} {} {}", t, pf, fmt));
+                    match back {
+                        Some(b) if b == c && b.to_scalar() == c.to_scalar() => {}
+                        Some(_) => em.violation(&format!("c19:claim-changed:{}", fmt), format!("a hashed claim with text {:?} (print_friendly {}) decodes from {} to a different claim", t, pf, fmt), json!({"text": t, "print_friendly": pf, "format": fmt})),
+                        None => em.violation(&format!("c19:claim-undecodable:{}", fmt), format!("a hashed claim with text {:?} (print_friendly {}) does not decode from its own {} encoding", t, pf, fmt), json!({"text": t, "print_friendly": pf, "format": fmt})),
+                    }
+                }
+            }
+            rt(em, "ClaimData", false, &ClaimData::from(RevocationClaim::from(t)));
+        }
+        for n in [isize::MIN, -1, 0, 1, isize::MAX] {
+            rt(em, "ClaimData", false, &ClaimData::from(NumberClaim::from(n)));
+        }
+        for sc in [Scalar::ZERO, Scalar::ONE, -Scalar::ONE] {
+            rt(em, "ClaimData", false, &ClaimData::from(ScalarClaim::from(sc)));
+        }
         let bundle = match issuer.sign_credential(&claims) {
             Ok(b) => b,
             Err(_) => {
